@@ -879,8 +879,28 @@ func (this *encodingTask) encode(res *encodingTaskResult) {
 		this.oBuffer.Buf = buffer
 	}
 
+	// A sequence of transforms uses the input buffer as scratch area: keep a
+	// copy of the block when the transforms may expand it beyond what a decoder accepts
+	var savedBlock []byte
+	maxLength := uint(_MAX_BITSTREAM_BLOCK_SIZE)
+
+	if bs, ok := this.ctx["blockSize"].(uint); ok {
+		maxLength = maxTransformedLength(bs)
+	}
+
+	if uint(requiredSize) > maxLength {
+		savedBlock = append(savedBlock, data[0:this.blockLength]...)
+	}
+
 	// Forward transform (ignore error, encode skipFlags)
 	_, postTransformLength, _ := t.Forward(data[0:this.blockLength], buffer)
+
+	if savedBlock != nil && postTransformLength > maxLength {
+		// Store the block untransformed (all transforms skipped)
+		copy(buffer, savedBlock)
+		postTransformLength = this.blockLength
+		t.SetSkipFlags(0xFF)
+	}
 	this.ctx["size"] = postTransformLength
 	dataSize := uint(1)
 
@@ -1673,6 +1693,13 @@ func (this *Reader) Read(block []byte) (int, error) {
 	}
 
 	return len(block) - remaining, nil
+}
+
+// maxTransformedLength returns the largest length of a transformed block that
+// a decoder accepts in a stream with this block size (see decodingTask.decode)
+func maxTransformedLength(blockSize uint) uint {
+	blkSize := blockSize + max(uint(_EXTRA_BUFFER_SIZE), blockSize>>4)
+	return min(max(blkSize+blkSize/2, 2048), _MAX_BITSTREAM_BLOCK_SIZE)
 }
 
 func (this *Reader) processBlock() (int64, error) {
